@@ -93,6 +93,16 @@ def size_of(r) -> int:
 
 
 @spec
+def size_val(r):
+    """the object Register.size returns: the declared size (possibly a let-constant) or a computed int"""
+    if r._alias_from is None:
+        return r._size
+    if r._alias_slice is None:
+        return size_val(r._alias_from)
+    return range_len(sl_start(r._alias_slice), ival(r._alias_slice.stop), sl_step(r._alias_slice))
+
+
+@spec
 def in_range_chain(r, i: int) -> bool:
     """the index is below the size at every level of the alias chain (what resolve_qubit checks)"""
     if i >= size_of(r):
@@ -141,8 +151,8 @@ class ResolveSize:
     def ensures_value(self, context, result):
         return is_intconst(result) and ival(result) == size_of(self)
 
-    def ensures_int_for_alias(self, context, result):
-        return implies(self._alias_from is not None and self._alias_slice is not None, is_int(result))
+    def ensures_object(self, context, result):
+        return same(result, size_val(self))
 
     def decreases(self, context):
         return depth(self)
